@@ -1,7 +1,6 @@
 package main
 
 import (
-	"fmt"
 	"go/ast"
 	"go/parser"
 	"go/token"
@@ -14,7 +13,8 @@ import (
 
 // c01Driven lists the exported functions/methods of the five packages that a
 // C01 harness calls; c01Excluded those that are not driven, with the reason.
-// An exported function in neither list makes the check inconclusive.
+// An exported function in neither list is reported as outside the claim (NOTE
+// line and outside_bound in the evidence); the check still decides the rest.
 var c01Driven = strings.Fields(`
 netutil.CloneIPs netutil.CloneURL netutil.ExtractReversedAddr netutil.IPAndPortFromAddr netutil.IPFromReversedAddr
 netutil.IPNetToPrefix netutil.IPNetToPrefixNoMapped netutil.IPToAddr netutil.IPToAddrNoMapped netutil.IPToReversedAddr
@@ -43,7 +43,7 @@ var c01Excluded = map[string]string{
 	"hostsfile.DefaultStorage.Add": "driven by the C08 harness", "hostsfile.DefaultStorage.RangeNames": "driven by the C08 harness", "hostsfile.DefaultStorage.RangeAddrs": "driven by the C08 harness",
 	"timeutil.Duration.String": "driven by the C14 Duration harnesses on a one-byte-symbolic family (any panic there is reported under C14)", "timeutil.Duration.MarshalText": "same as Duration.String",
 	"timeutil.Duration.UnmarshalText": "driven by the C14 Duration harnesses on texts produced by String (arbitrary texts go through time.ParseDuration floating point, not modelled)",
-	"timeutil.NewConstSchedule": "no text/bytes/IP input", "timeutil.NewCronSchedule": "no text input", "timeutil.NewRandomizedSchedule": "no text input",
+	"timeutil.NewConstSchedule":       "no text/bytes/IP input", "timeutil.NewCronSchedule": "no text input", "timeutil.NewRandomizedSchedule": "no text input",
 	"timeutil.ConstSchedule.UntilNext": "no text input", "timeutil.CronSchedule.UntilNext": "no text input", "timeutil.RandomizedSchedule.UntilNext": "no text input",
 	"timeutil.SystemClock.Now": "clock", "timeutil.SystemClock.After": "clock",
 }
@@ -106,12 +106,15 @@ func genC01(genDir string) (map[string]string, error) {
 			}
 		}
 	}
-	if len(unknown) > 0 {
-		sort.Strings(unknown)
-		return nil, fmt.Errorf("exported functions neither driven by a C01 harness nor excluded with a reason: %s", strings.Join(unknown, ", "))
-	}
+	sort.Strings(unknown)
+	c01NotDriven = unknown
 	return map[string]string{}, nil
 }
+
+// c01NotDriven: exported functions of the current tree that no C01 harness
+// calls and that are not in the exclusion table (functions added after the
+// harnesses were written).  They are outside the claim and reported as such.
+var c01NotDriven []string
 
 func init() {
 	register(&propCheck{
@@ -149,8 +152,14 @@ func init() {
 		},
 		Outside: []string{"strings longer than the bounds", "names with non-ASCII bytes or 'xn--' labels through idna.ToASCII", "urlutil.URL.UnmarshalJSON on non-string JSON values (encoding/json reflection)",
 			"timeutil.Duration text methods (see the exclusion table in the evidence)", "panics inside fmt formatting (stubbed)"},
-		Assumptions: []string{"documented preconditions assumed: fam is IPv4 or IPv6; RedactUserinfo's u is not nil", "a new exported function that is neither driven nor excluded makes the check inconclusive (exit 2)"},
+		Assumptions: []string{"documented preconditions assumed: fam is IPv4 or IPv6; RedactUserinfo's u is not nil", "an exported function that is neither driven nor in the exclusion table (added after the harnesses were written) is listed in outside_bound and printed as a NOTE; it is not covered"},
 		Stubs:       append([]string{"fmt.* and address String() methods (formatting, opaque)", "unique.Make (interning)", "log.* (empty)"}, modelStubs...),
-		Technique:   "SSA->SMT bounded symbolic execution with every Go run-time panic site, explicit panic and unwinding failure as an assertion; no oracle",
+		OutsideDyn: func() (out []string) {
+			for _, f := range c01NotDriven {
+				out = append(out, "exported function not driven by any C01 harness: "+f)
+			}
+			return out
+		},
+		Technique: "SSA->SMT bounded symbolic execution with every Go run-time panic site, explicit panic and unwinding failure as an assertion; no oracle",
 	})
 }
